@@ -85,9 +85,15 @@ def build(sc, d):
         v1["gridforce"]["extra_forcing"] = scen.extra_forcing(sc)
     if sc["continuous"]:
         v1["particle_release"].update(release_type="continuous", release_frequency=sc["freq"] * scen.DT)
+    shared = sc.get("seed", 0) % 3 == 1
+    if shared:
+        # X, Y and Z described once in the file and referred to (a YAML anchor with aliases): still three variables
+        for v in ("X", "Y", "Z"):
+            conf2["output"]["instance_variables"][v] = dict(encoding=dict(datatype="f8"), attributes=dict(units="grid units"))
+    pos = dict(ncformat="f8", units="grid units")
     for v in out_iv:
         enc = conf2["output"]["instance_variables"][v]
-        v1["output_variables"][v] = dict(ncformat=enc["encoding"]["datatype"], **enc["attributes"])
+        v1["output_variables"][v] = pos if shared and v in ("X", "Y", "Z") else dict(ncformat=enc["encoding"]["datatype"], **enc["attributes"])
     if sc["pvars"]:
         enc = conf2["output"]["particle_variables"]["release_time"]
         v1["output_variables"]["release_time"] = dict(ncformat=enc["encoding"]["datatype"], **enc["attributes"])
